@@ -868,6 +868,22 @@ func (v *view) oracleC04() {
 			if !good && v.single && ((v.hReturn != nil && v.hReturn.Err.IsNil() && v.responsesProduced() != 1) || v.responsesProduced() >= 2) {
 				good = true // the real outcome: wrong number of responses (C08)
 			}
+			if !good && v.single && codes.Code(ev.Err.Code) == codes.Internal {
+				// a second response whose send had begun before this receive
+				// returned may have been handed over although the cancellation
+				// made the handler's SendMsg itself report the context error:
+				// "too many responses" is then the real result of the call
+				// (fabricated messages are C01's business)
+				began := 0
+				for _, sd := range v.hSend {
+					if sd.Seq < ev.RSeq {
+						began++
+					}
+				}
+				if began >= 2 {
+					good = true
+				}
+			}
 			if !good && ev != v.terminal && v.terminal != nil && v.terminal.RSeq < ev.RSeq {
 				// repeated receive after the end: same as the terminal outcome
 				if ev.Err.String() == v.terminal.Err.String() {
